@@ -60,7 +60,7 @@ def run(ctx):
                     if k <= 10:
                         mi = rng.choice([1, 2, 3, 4, 5])
                         cases.append({"fn": "newton", "coef": [hexf(x) for x in coef], "parity": parity, "maxiter": mi, "setting": "maxiter", "timeout": 900})
-                        crit, mi2 = rng.choice([(1e-6, 50), (1e-14, 100), (1e-3, 7), (1e-12, 2), (1e-13, 3), (1e-12, 1)])
+                        crit, mi2 = rng.choice([(1e-6, 50), (1e-14, 100), (1e-3, 7), (1e-12, 2), (1e-13, 3), (1e-12, 1), (0.0, 12), (1e-17, 15), (1e-18, 9)])
                         cases.append({"fn": "newton", "coef": [hexf(x) for x in coef], "parity": parity, "crit": hexf(crit), "maxiter": mi2,
                                       "setting": "crit", "timeout": 900})
         # long targets (k > 64) with all the weight on one coefficient or spread with one sign, at the top of the allowed norm
